@@ -17,10 +17,22 @@ REPO = os.environ.get("VT_REPO", "/repo")
 
 
 def load_findings():
-    if not os.path.exists(FINDINGS):
-        return {"open": [], "fixed": []}
-    with open(FINDINGS) as f:
-        return json.load(f)
+    """known_findings.json plus per-property lists under findings.d/ (same entry format)."""
+    out = {"open": [], "fixed": []}
+    if os.path.exists(FINDINGS):
+        with open(FINDINGS) as f:
+            out = json.load(f)
+    d = os.path.join(VERIF, "findings.d")
+    if os.path.isdir(d):
+        seen = {e["id"] for e in out["open"]}
+        for name in sorted(os.listdir(d)):
+            if name.endswith(".json"):
+                with open(os.path.join(d, name)) as f:
+                    for e in json.load(f):
+                        if e["id"] not in seen:
+                            out["open"].append(e)
+                            seen.add(e["id"])
+    return out
 
 
 def open_findings(pid):
